@@ -19,9 +19,9 @@ var baseTime = time.Unix(1_700_000_000, 0).UTC()
 // honest participant proposes in every instance, the beacon (decides CONVERGE tickets) and the bounds.
 type Scenario struct {
 	Name      string
-	Powers    []int64  // power of participant i (ActorID = i+1)
-	Byz       int      // index of the Byzantine identity, -1 if none
-	Silent    []int    // crash-silent members (hold power, never send, never observed)
+	Powers    []int64    // power of participant i (ActorID = i+1)
+	Byz       int        // index of the Byzantine identity, -1 if none
+	Silent    []int      // crash-silent members (hold power, never send, never observed)
 	Inputs    [][]string // Inputs[instance][participant] = branch pattern, e.g. "aa", "a", "f", ""
 	Beacon    string
 	Instances int
@@ -62,7 +62,7 @@ func (s *Scenario) String() string {
 type world struct {
 	sc      *Scenario
 	backend *signing.FakeBackend // used only while building the world; executions use their own copy
-	entries gpbft.PowerEntries // canonical order
+	entries gpbft.PowerEntries   // canonical order
 	ptCid   gpbft.SupplementalData
 	supp    gpbft.SupplementalData
 	pubkeys map[gpbft.ActorID]gpbft.PubKey
@@ -173,8 +173,55 @@ func moreScenarios() []*Scenario {
 	}
 }
 
+// policyScenarios: scenarios explored around a non-synchronous base schedule (lagging participant,
+// partition with an echoing Byzantine participant).
+type policyPlan struct {
+	sc  *Scenario
+	pol Policy
+	byz bool // explore Byzantine deviations (else honest-network deviations)
+}
+
+var (
+	hon4split = sc("hon4-split", eq4, -1, nil, "b2", 3, []string{"aa", "a", "f", ""})
+	hon4pref  = sc("hon4-prefix", eq4, -1, nil, "b1", 3, []string{"aa", "aa", "a", "a"})
+	w5lag     = sc("w5-lag-byz", []int64{2, 2, 2, 1, 1}, 4, nil, "b0", 3, []string{"aa", "a", "af", "a", ""})
+	triBound  = sc("tri-boundary", []int64{21845, 21845, 21844}, 2, nil, "b0", 2, []string{"aa", "f", ""})
+	eq4part   = sc("eq4-partition", eq4, 3, nil, "b1", 2, []string{"aa", "a", "f", ""})
+	eq4slow   = sc("eq4-slow-links", eq4, 3, nil, "b2", 3, []string{"aa", "aa", "a", ""})
+)
+
+func policyPlans(thorough bool) []policyPlan {
+	out := []policyPlan{
+		{hon4split, Policy{Kind: "lag", Lagger: 3, FlushRound: 1, LIFO: true}, false},
+		{hon4split, Policy{Kind: "lag", Lagger: 0, FlushRound: 2, LIFO: false}, false},
+		{hon4pref, Policy{Kind: "lag", Lagger: 2, FlushRound: 1, LIFO: true}, false},
+		{w5lag, Policy{Kind: "lag", Lagger: 3, FlushRound: 1, LIFO: true}, true},
+		{triBound, Policy{Kind: "partition", Groups: [][]int{{0}, {1}}, Echo: true, HealAfter: 0}, true},
+		{eq4part, Policy{Kind: "partition", Groups: [][]int{{0}, {1, 2}}, Echo: true, HealAfter: 120}, true},
+	}
+	Q, C, P := gpbft.QUALITY_PHASE, gpbft.COMMIT_PHASE, gpbft.PREPARE_PHASE
+	out = append(out,
+		// a slow QUALITY link makes proposals differ (round 0 fails); slow COMMIT links make p0 advance on borrowed justifications
+		policyPlan{eq4slow, Policy{Kind: "slow", Slow: []Link{{2, 1, Q}, {1, 0, C}, {2, 0, C}}}, true},
+		policyPlan{eq4slow, Policy{Kind: "slow", Slow: []Link{{2, 1, Q}, {0, 2, P}, {1, 2, P}}}, true},
+		policyPlan{hon4split, Policy{Kind: "slow", Slow: []Link{{0, 3, C}, {1, 3, C}, {2, 3, C}, {0, 3, P}}}, false},
+	)
+	if thorough {
+		out = append(out,
+			policyPlan{eq4slow, Policy{Kind: "slow", Slow: []Link{{2, 1, Q}, {2, 0, Q}, {1, 0, C}}}, true},
+			policyPlan{eq4slow, Policy{Kind: "slow", Slow: []Link{{0, 1, Q}, {1, 0, C}, {2, 0, C}, {1, 0, P}}}, false},
+			policyPlan{hon4split, Policy{Kind: "lag", Lagger: 1, FlushRound: 2, LIFO: true}, false},
+			policyPlan{w5lag, Policy{Kind: "lag", Lagger: 3, FlushRound: 2, LIFO: false}, true},
+			policyPlan{w5lag, Policy{Kind: "lag", Lagger: 0, FlushRound: 1, LIFO: true}, false},
+			policyPlan{triBound, Policy{Kind: "partition", Groups: [][]int{{0}, {1}}, Echo: true, HealAfter: 150}, true},
+			policyPlan{eq4part, Policy{Kind: "partition", Groups: [][]int{{0, 1}, {2}}, Echo: true, HealAfter: 0}, true},
+		)
+	}
+	return out
+}
+
 func scenarioByName(name string) *Scenario {
-	for _, s := range append(coreScenarios(), moreScenarios()...) {
+	for _, s := range append(append(coreScenarios(), moreScenarios()...), hon4split, hon4pref, w5lag, triBound, eq4part, eq4slow) {
 		if s.Name == name {
 			return s
 		}
